@@ -1,6 +1,6 @@
 //! @property C13
 //! @enc BytesSerializable::{to_bytes, from_bytes} of Identifier, PollingStrategy, Partitioning, PollMessages, StoreConsumerOffset, GetConsumerOffset, CreateStream, DeleteStream, CreateConsumerGroup, JoinConsumerGroup, CreatePartitions; PollingKind/ConsumerKind/IdKind/PartitioningKind code maps
-//! @bounds every scalar field symbolic (u32/u64/bool, all enum arms); identifiers of a concrete kind per harness (numeric with any u32 >= 1, or a 2-byte name with symbolic bytes; both kinds occur in every multi-identifier command); optional fields present/absent; names of length 2 with symbolic bytes (ASCII letters); partition ids >= 1 when present (0 is the wire encoding of "absent")
+//! @bounds every scalar field symbolic (u32/u64/bool, all enum arms); identifiers of a concrete kind per harness (numeric with any u32 >= 1, or a 1- or 2-byte name with symbolic bytes; both kinds occur in every multi-identifier command); optional fields present/absent; names of length 2 with symbolic bytes (ASCII letters); partition ids >= 1 when present (0 is the wire encoding of "absent")
 //! @assume quick tier = the round trips that finish within the cap (named identifier, polling strategy incl. malformed frames, the three partitioning kinds, CreateStream/DeleteStream); the commands carrying several identifiers and numeric identifiers are thorough-tier only (CBMC runs out of memory on them in this setup)
 //! @out HTTP/JSON; SendMessages with user headers (hash-map iteration order); responses (mapper.rs) - not yet encoded; malformed frames only for Identifier/PollingStrategy/Partitioning (decoder must return Err or a value that re-encodes to the same bytes)
 use super::util::static_bytes;
@@ -81,6 +81,19 @@ fn identifier_roundtrip(named: bool) {
 }
 harness! { #[kani::unwind(8)] fn c13_identifier_numeric_roundtrip_t() { identifier_roundtrip(false) } }
 harness! { #[kani::unwind(8)] fn c13_identifier_named_roundtrip() { identifier_roundtrip(true) } }
+// boundary length: the shortest name the SDK can build (1 byte), as the last field of a frame
+harness! { #[kani::unwind(8)] fn c13_identifier_one_byte_name_roundtrip() {
+    let a: u8 = kani::any();
+    kani::assume(a >= b'a' && a <= b'z');
+    let x = Identifier { kind: IdKind::String, length: 1, value: vec![a] };
+    let y = Identifier::from_bytes(wire(x.to_bytes()));
+    assert!(y.is_ok(), "the shortest named identifier the SDK can send is rejected by the decoder");
+    assert!(y.unwrap() == x);
+    let d = DeleteStream { stream_id: Identifier { kind: IdKind::String, length: 1, value: vec![a] } };
+    let e = DeleteStream::from_bytes(wire(d.to_bytes()));
+    assert!(e.is_ok() && e.unwrap() == d);
+    kani::cover!(a == b'q', "some letter");
+} }
 
 harness! { #[kani::unwind(12)] fn c13_polling_strategy_roundtrip_and_malformed() {
     let x = any_strategy();
